@@ -4246,9 +4246,13 @@ static srtp_err_status_t srtp_unprotect_rtcp_aead(
             return status;
         }
     } else {
-        /* if no encryption and not-inplace then need to copy rest of packet */
+        /*
+         * if no encryption and not-inplace then need to copy rest of packet
+         * (enc_octet_len includes the auth tag, which is not part of it)
+         */
         if (rtcp != srtcp) {
-            memcpy(rtcp + enc_start, srtcp + enc_start, enc_octet_len);
+            memcpy(rtcp + enc_start, srtcp + enc_start,
+                   enc_octet_len - tag_len);
         }
 
         /*
